@@ -4,6 +4,7 @@
 // (sync42::WorkCoalescingQueue, schedule-level, not covered) drives.  Proved, for any batches and any watermarks:
 //   * WriteBatch::put / del (verbatim): within the key / value / block limits exactly one entry's bytes are appended and
 //     exactly that entry is folded into the batch's setsum; otherwise Err and the buffer is unchanged;
+//   * ConcurrentLogBuilder::append (entire): Ok only when this batch was written whole and a completed fdatasync covers it;
 //   * merging concatenates the batches' bytes in order; the `.expect("can_batch should ensure this is impossible")` in batch
 //     cannot fire once can_batch has answered true for the same pair;
 //   * one work() call appends the merged batch to the log builder exactly once and whole, flushes, and hands every one of
@@ -19,6 +20,7 @@ global size_of usize == 8;
 #[verifier::external_body]
 struct SError { _p: u8 }
 //@ stubs sst/src/lib.rs -> SError
+//@ stubs sst/src/log.rs -> SError
 #[verifier::external_body]
 #[derive(Clone, Copy)]
 struct Setsum { _p: u8 }
@@ -272,7 +274,59 @@ impl FsyncCoalescingCore {
 //@ end
 }
 
-//@ min-verified 15
+
+// ---------------------------------------------------------------- ConcurrentLogBuilder::append: the glue between the two queues
+// An append is acknowledged only when its batch has been written whole AND a completed fdatasync covers it.
+// ASSUMED of sync42::WorkCoalescingQueue::do_work (C18's queue clause, not decided by this family): the caller is handed
+// the output the core produced for ITS input.  With the cores' contracts above that is:
+//   write queue: Ok(n)  ==> this batch was appended whole, flushed, and n is the running byte count right behind it;
+//   fsync queue: true   ==> a completed fdatasync covers at least the watermark handed in.
+#[verifier::external_body]
+struct WriteQueue { _p: u8 }
+#[verifier::external_body]
+struct FsyncQueue { _p: u8 }
+#[verifier::external_body]
+struct PoisonFlag { _p: u8 }
+mod atomic { pub enum Ordering { Relaxed, SeqCst } }
+impl PoisonFlag {
+    #[verifier::external_body]
+    fn store(&self, v: bool, o: atomic::Ordering) { unimplemented!() }
+}
+struct ConcurrentLogBuilder { write_cq: WriteQueue, fsync_cq: FsyncQueue, poison: PoisonFlag }
+impl ConcurrentLogBuilder {
+    // the log holds `b` whole and `upto` is the running count of payload bytes right behind it
+    uninterp spec fn logged(&self, b: Seq<u8>, upto: u64) -> bool;
+    // a completed fdatasync covers the first w payload bytes (stays true once true: FsyncCoalescingCore::work, `synced` never goes back)
+    uninterp spec fn synced_through(&self, w: u64) -> bool;
+}
+impl WriteQueue {
+    #[verifier::external_body]
+    fn do_work(&self, input: WriteBatch, Ghost(owner): Ghost<ConcurrentLogBuilder>) -> (r: Result<u64, SError>)
+        ensures r is Ok ==> owner.logged(input.buffer@, r->Ok_0),
+    { unimplemented!() }
+}
+impl FsyncQueue {
+    #[verifier::external_body]
+    fn do_work(&self, input: u64, Ghost(owner): Ghost<ConcurrentLogBuilder>) -> (r: bool)
+        ensures r ==> owner.synced_through(input),
+    { unimplemented!() }
+}
+impl ConcurrentLogBuilder {
+//@ extract sst/src/log.rs | impl ConcurrentLogBuilder<W> :: fn append
+//@ ret r
+//@ rewrite X18 `self.write_cq.do_work(Arc::new(write_batch))` => `self.write_cq.do_work(write_batch, Ghost(*self))`
+//@ rewrite-re X18 `self\.fsync_cq\.do_work\((.+?)\)` => `self.fsync_cq.do_work(\1, Ghost(*self))`
+//@ bodystart <<
+        let ghost batch = write_batch.buffer@;
+//@ >>
+//@ post <<
+        // acknowledged ==> written whole and covered by a completed fdatasync
+        r is Ok ==> write_batch.buffer@.len() > 0 && exists|w: u64| #[trigger] self.logged(write_batch.buffer@, w) && self.synced_through(w),
+//@ >>
+//@ end
+}
+
+//@ min-verified 16
 } // verus!
 // `Result::expect` wants E: Debug; the formatting itself is never interpreted
 impl std::fmt::Debug for SError { fn fmt(&self, _f: &mut std::fmt::Formatter<'_>) -> std::fmt::Result { Ok(()) } }
